@@ -2,7 +2,8 @@
    satisfy [desc_ok] (Proofs/SdlTextDescProofs.v) at depth 0 *)
 From PyGql Require Import Lang.PrinterModel Spec.PrinterSpec Spec.LexSpec.
 From PyGql Require Import Schema.SdlSchema Schema.SdlBuild Schema.SdlPrint Spec.SdlRoundtripSpec
-                          Proofs.SdlPrintProofs Proofs.SdlDescLexProofs Proofs.SdlTextSchemaProofs Proofs.SdlTextDescProofs.
+                          Proofs.SdlPrintProofs Proofs.SdlDescLexProofs Proofs.SdlTextSchemaProofs Proofs.SdlTextDescProofs
+                          Proofs.SdlMemberDescProofs.
 From Coq Require Import Lia.
 
 Lemma forallb_Forall {A} (p : A -> bool) (P : A -> Prop) l :
@@ -131,4 +132,90 @@ Proof.
     rewrite E', last_app_ne by discriminate. discriminate.
   - apply Forall_forall. intros c Hc. destruct (Hin c Hc) as [->|(l & Hl & Hcl)]; [right; left; reflexivity|].
     rewrite Forall_forall in Hsc. apply Hsc. eapply in_split_nl; eassumption.
+Qed.
+
+(* decidable form of the side condition on characters *)
+Definition source_char_b (c : N) : bool := ((c =? 9) || (c =? 10) || (c =? 13) || (32 <=? c))%N.
+
+Lemma source_chars_b s : forallb source_char_b s = true -> Forall SourceCharacter s.
+Proof.
+  apply forallb_Forall. intros c H. unfold source_char_b in H. unfold SourceCharacter.
+  repeat (apply Bool.orb_true_iff in H; destruct H as [H|H]);
+    try (apply N.eqb_eq in H; subst; lia). apply N.leb_le in H. lia.
+Qed.
+
+(* ---- the same classes at any depth (member descriptions are indented) ---- *)
+Theorem desc_okd_single_line o depth desc :
+  po_descriptions o = true ->
+  forallb plain_char desc = true -> SdlRoundtripSpec.blank desc = false -> length desc < 70 ->
+  length desc <= 120 - length (ind o depth) ->
+  last desc 0%N <> 92%N -> Forall SourceCharacter desc ->
+  desc_okd o depth (Some desc).
+Proof.
+  intros Hp Hpl Hb Hl Hw Hlast Hsc.
+  destruct (description_roundtrip_single_line o desc depth Hpl Hb Hl Hw) as [Hbody Hval].
+  cbn [desc_okd]. rewrite Hbody in *. rewrite (unescape_triple_plain _ Hpl) in Hval.
+  split; [destruct desc; [discriminate|discriminate]|]. split; [exact Hp|]. split; [|exact Hval].
+  split; [|split; [intros _; exact Hlast|exact Hsc]].
+  eapply forallb_Forall; [|exact Hpl]. intros c Hc ->. discriminate.
+Qed.
+
+Theorem desc_okd_block o depth desc :
+  let lines := split_nl desc in
+  let indent := ind o depth in
+  po_descriptions o = true -> desc <> [] -> all_ws indent ->
+  forallb clean_line lines = true ->
+  forallb (fun l => Nat.leb (length l) (120 - length indent)) lines = true ->
+  hd [] lines <> [] -> last lines [] <> [] ->
+  (2 <= length lines \/ 70 <= length (hd [] lines)) ->
+  Forall SourceCharacter desc ->
+  desc_okd o depth (Some desc).
+Proof.
+  intros lines indent Hp Hne Hws Hclean Hlen Hfirst Hlast Hblock Hsc.
+  pose proof (block_body_form o desc depth Hclean Hlen Hblock) as Hbody. fold lines indent in Hbody.
+  assert (Hblank : SdlRoundtripSpec.blank indent = true) by exact Hws.
+  pose proof (description_roundtrip_block o desc depth Hblank Hclean Hlen Hfirst Hlast Hblock) as Hval.
+  cbn [desc_okd].
+  assert (Hin : forall c, In c (description_body o desc depth) ->
+                 c = 10%N \/ In c indent \/ exists l, In l lines /\ In c l).
+  { intros c Hc. rewrite Hbody in Hc. apply in_join_nl in Hc. destruct Hc as [->|(x & Hx & Hc)]; [left; reflexivity|].
+    destruct Hx as [<-|Hx]; [destruct Hc|]. apply in_app_or in Hx. destruct Hx as [Hx|[<-|[]]]; [|right; left; exact Hc].
+    apply in_map_iff in Hx. destruct Hx as (l & <- & Hl). apply in_app_or in Hc.
+    destruct Hc as [Hc|Hc]; [right; left; exact Hc|right; right; exists l; split; assumption]. }
+  assert (Hwsc : forall c, In c indent -> c = 32%N \/ c = 9%N).
+  { intros c Hc. unfold all_ws in Hws. rewrite forallb_forall in Hws. specialize (Hws c Hc).
+    unfold PrinterSpec.is_ws in Hws. apply Bool.orb_true_iff in Hws. destruct Hws as [H|H]; apply N.eqb_eq in H; auto. }
+  assert (Hnq : Forall (fun c => c <> 34%N) (description_body o desc depth)).
+  { apply Forall_forall. intros c Hc. destruct (Hin c Hc) as [->|[Hi|(l & Hl & Hcl)]]; [discriminate| |].
+    - destruct (Hwsc c Hi) as [->| ->]; discriminate.
+    - rewrite forallb_forall in Hclean. specialize (Hclean l Hl). unfold clean_line in Hclean.
+      apply andb_prop in Hclean. destruct Hclean as [Hch _]. rewrite forallb_forall in Hch. specialize (Hch c Hcl).
+      intros ->. discriminate. }
+  assert (Hunesc : unescape_triple (description_body o desc depth) = description_body o desc depth).
+  { apply unescape_noquote. apply forallb_forall. intros c Hc. rewrite Forall_forall in Hnq. specialize (Hnq c Hc).
+    apply Bool.negb_true_iff. apply N.eqb_neq. exact Hnq. }
+  rewrite Hunesc in Hval.
+  split; [exact Hne|]. split; [exact Hp|]. split; [|exact Hval].
+  split; [exact Hnq|]. split.
+  - intros _. rewrite Hbody. subst lines indent.
+    assert (Hj : forall (xs : list str) e, xs <> [] -> join nl (xs ++ [e]) = join nl xs ++ nl ++ e).
+    { intros xs e. destruct xs as [|x xs]; [congruence|]. intros _.
+      revert x. induction xs as [|y ys IH]; intros x; [reflexivity|].
+      change ((x :: y :: ys) ++ [e]) with (x :: (y :: ys) ++ [e]).
+      change (join nl (x :: (y :: ys) ++ [e])) with (x ++ nl ++ join nl ((y :: ys) ++ [e])).
+      rewrite IH. change (join nl (x :: y :: ys)) with (x ++ nl ++ join nl (y :: ys)). rewrite <- !app_assoc. reflexivity. }
+    pose proof (Hj ([] :: map (fun l : str => ind o depth ++ l) (split_nl desc)) (ind o depth) ltac:(discriminate)) as E'.
+    cbn [app] in E'.
+    match goal with |- last ?x _ <> _ =>
+      replace x with (join nl ([] :: map (fun l : str => ind o depth ++ l) (split_nl desc)) ++ nl ++ ind o depth)
+        by (symmetry; exact E') end.
+    destruct (ind o depth) as [|i0 ir] eqn:Ei.
+    + rewrite app_nil_r, last_app_ne by discriminate. discriminate.
+    + rewrite app_assoc, last_app_ne by discriminate.
+      assert (Hl : In (last (i0 :: ir) 0%N) (i0 :: ir)).
+      { clear. generalize i0. induction ir as [|b r IH]; intros a; [left; reflexivity|]. right. apply IH. }
+      destruct (Hwsc _ Hl) as [E|E]; rewrite E; discriminate.
+  - apply Forall_forall. intros c Hc. destruct (Hin c Hc) as [->|[Hi|(l & Hl & Hcl)]]; [right; left; reflexivity| |].
+    + destruct (Hwsc c Hi) as [->| ->]; unfold SourceCharacter; [right; right; right; lia|left; reflexivity].
+    + rewrite Forall_forall in Hsc. apply Hsc. eapply in_split_nl; eassumption.
 Qed.
